@@ -339,17 +339,18 @@ type pwState struct {
 }
 
 type pathWalker struct {
-	mu       *sync.Mutex
-	loadHook func(*pwPath, *ssa.UnOp) (constant.Value, bool)
-	unroll1  bool // loops: explore zero and one iteration (on re-entering a loop header the exit edge is forced)
-	seed     func(*pwPath, ssa.Value) (constant.Value, bool)
-	inline   func(caller, callee *ssa.Function) bool
-	maxPaths int
-	maxDepth int
-	paths    []*pwPath
-	overflow bool
-	runDefers bool // run the deferred calls of an activation at its exit (closures and functions the inline policy accepts)
-	noTables  bool // do not resolve lookups in constant tables (used while the tables themselves are built)
+	mu         *sync.Mutex
+	loadHook   func(*pwPath, *ssa.UnOp) (constant.Value, bool)
+	unroll1    bool // loops: explore zero and one iteration (on re-entering a loop header the exit edge is forced)
+	seed       func(*pwPath, ssa.Value) (constant.Value, bool)
+	inline     func(caller, callee *ssa.Function) bool
+	maxPaths   int
+	maxDepth   int
+	paths      []*pwPath
+	overflow   bool
+	iterCopies bool // the second iteration of a loop works on private copies of the instructions (loop-carried variables keep their first-iteration meaning)
+	runDefers  bool // run the deferred calls of an activation at its exit (closures and functions the inline policy accepts)
+	noTables   bool // do not resolve lookups in constant tables (used while the tables themselves are built)
 	// stopCall: the path ends (end == "stop") at this call, which is recorded as its last event
 	stopCall func(p *pwPath, frameFn *ssa.Function, c *ssa.Call) bool
 }
@@ -783,7 +784,7 @@ func (pw *pathWalker) run(s *pwState) []*pwState {
 				s.exiting = b
 				// the second time round works on private copies of the instructions, so that what the first
 				// iteration computed keeps its meaning (a loop-carried variable is otherwise rebound under it)
-				if s.frame.sub == nil {
+				if s.frame.sub == nil && pw.iterCopies {
 					nf := *s.frame
 					nf.sub = map[ssa.Value]ssa.Value{}
 					s.frame = &nf
@@ -818,6 +819,10 @@ func (pw *pathWalker) run(s *pwState) []*pwState {
 							key = c
 						} else {
 							key = copyInstr(phi, s.frame.sub).(*ssa.Phi)
+							if s.p.copies == nil {
+								s.p.copies = map[ssa.Instruction][]ssa.Instruction{}
+							}
+							s.p.copies[phi] = append(s.p.copies[phi], key)
 						}
 					}
 					ups = append(ups, upd{key, s.p.resolve(e)})
